@@ -20,7 +20,7 @@ class Contract:
                  raises=(), locals=None, loops=None, defn=None, modifies=(), kind="function",
                  status="verify", impl_of=None, self_guard=None, defaults=None, ensures_on_raise=(),
                  attrs=None, is_lemma=False, note="", total=None, properties=(), inline=False, use_at_end=(), opaque=(),
-                 aliases_ok=()):
+                 aliases_ok=(), use_at_start=(), cases=()):
         self.key = key
         self.module = module
         self.qualname = qualname or key
@@ -48,6 +48,8 @@ class Contract:
         self.use_at_end = list(use_at_end)
         self.opaque = set(opaque)
         self.aliases_ok = set(aliases_ok)
+        self.use_at_start = list(use_at_start)
+        self.cases = list(cases)              # Boolean parameter fields to split on (verified once per valuation)
 
     def param_axioms(self, eng, st):
         return []
@@ -78,9 +80,10 @@ class Registry:
         self.contracts[c.key] = c
         return c
 
-    def lemma(self, key, params, requires, ensures, properties=(), note=""):
+    def lemma(self, key, params, requires, ensures, properties=(), note="", use=(), opaque=(), cases=()):
         """Register a lemma; it becomes usable in 'use' clauses (as the formula requires => ensures)."""
-        c = Contract(key, params=params, requires=requires, ensures=ensures, is_lemma=True, properties=properties, note=note)
+        c = Contract(key, params=params, requires=requires, ensures=ensures, is_lemma=True, properties=properties, note=note,
+                     use_at_start=use, opaque=opaque, cases=cases)
         self.add(c)
         self.lemmas[key] = c
         return c
@@ -751,7 +754,33 @@ class Registry:
             else:
                 res = fresh(c.returns, c.key.split(".")[-1].strip("_") or "r")
             eng.result = res
-            for e, t in eng.spec_conj(c.ensures, cs):
+            # ensures of the form  <modified param>.a.b == expr  are applied as assignments (the equality would
+            # force the value anyway); this keeps post-state fields the very terms the specification talks about
+            rest = []
+            for e in c.ensures:
+                tree = self.parse_spec(e)
+                tgt = None
+                if (c.modifies and isinstance(tree, ast.Compare) and len(tree.ops) == 1 and isinstance(tree.ops[0], ast.Eq)
+                        and isinstance(tree.comparators[0], ast.expr)):
+                    tgt = self._mod_path(tree.left, c.modifies)
+                if tgt is None or self._mentions_post(tree.comparators[0], c.modifies):
+                    rest.append(e)
+                    continue
+                saved = eng.spec
+                eng.spec = True
+                try:
+                    val = eng.ev1(tree.comparators[0], cs)
+                finally:
+                    eng.spec = saved
+                holder = cs.vars[tgt[0]]
+                for a_ in tgt[1:-1]:
+                    holder = holder.x[a_]
+                cur = holder.x[tgt[-1]]
+                try:
+                    holder.x[tgt[-1]] = deep_copy(eng.typed(val, cur.t))
+                except TypeError:
+                    rest.append(e)
+            for e, t in eng.spec_conj(rest, cs):
                 st.assume(t)
             # write back mutated arguments
             for m in c.modifies:
@@ -762,6 +791,32 @@ class Registry:
         finally:
             eng.result = saved_res
             eng.bound = saved_bound
+
+    def _mod_path(self, node, modifies):
+        path = []
+        while isinstance(node, ast.Attribute):
+            path.append(node.attr)
+            node = node.value
+        if isinstance(node, ast.Name) and node.id in modifies and path:
+            return [node.id] + path[::-1]
+        return None
+
+    def _mentions_post(self, node, modifies):
+        """Does the expression read a modified parameter outside old(...)? (then it is not a plain assignment)"""
+        class Vis(ast.NodeVisitor):
+            found = False
+
+            def visit_Call(self, n):
+                if isinstance(n.func, ast.Name) and n.func.id == "old":
+                    return
+                self.generic_visit(n)
+
+            def visit_Name(self, n):
+                if n.id in modifies:
+                    self.found = True
+        v = Vis()
+        v.visit(node)
+        return v.found
 
     def write_back(self, eng, st, node, idx, pname, newval, self_expr):
         is_method = self_expr is not None
